@@ -3,6 +3,7 @@ package main
 import (
 	"go/token"
 	"go/types"
+	"sort"
 	"strings"
 
 	"golang.org/x/tools/go/ssa"
@@ -57,16 +58,66 @@ func rvCallSig(cc *ssa.CallCommon) *types.Signature {
 }
 
 // rvSubReconcilerCalls lists the call sites (invoke or static) of functions with the
-// sub-reconciler signature in the given functions.
-func rvSubReconcilerCalls(fns []*ssa.Function) []Call {
+// sub-reconciler signature in the given functions. A static call of an extracted helper that merely
+// has the same parameter list (e.g. the loop over the sub-reconcilers moved into its own method) is
+// not an invocation: the invocation inside the helper is, and it is judged through the helper's
+// call sites.
+func rvSubReconcilerCalls(p *Program, fns []*ssa.Function) []Call {
 	var out []Call
 	for _, fn := range fns {
 		for _, c := range callsIn(fn) {
 			if rvIsSubReconcilerSig(rvCallSig(c.Common)) && len(callArgs(c.Common)) == 4 {
+				if h := staticCallee(c.Common); h != nil && p.inlinable(h) {
+					continue
+				}
 				out = append(out, c)
 			}
 		}
 	}
+	return out
+}
+
+// rvParamRoot follows parameters of extracted helpers (one call site) to the argument passed, as far
+// up as possible; other values are returned unchanged (conversions stripped).
+func (p *Program) rvParamRoot(v ssa.Value) ssa.Value {
+	v = stripConv(v)
+	for i := 0; i < 8; i++ {
+		prm, ok := v.(*ssa.Parameter)
+		if !ok {
+			break
+		}
+		arg := p.soleArgument(prm)
+		if arg == nil {
+			break
+		}
+		v = stripConv(arg)
+	}
+	return v
+}
+
+// rvValuesX: the values that may flow into v, looking through phis, spilled locals, results of
+// extracted helpers and — for a parameter of an extracted helper with one call site — the argument
+// passed there. Values are reported in the function where they are produced.
+func (p *Program) rvValuesX(v ssa.Value) []ssa.Value {
+	var out []ssa.Value
+	seen := map[ssa.Value]bool{}
+	var walk func(v ssa.Value, d int)
+	walk = func(v ssa.Value, d int) {
+		for _, pv := range p.possibleValuesX(v) {
+			if seen[pv] {
+				continue
+			}
+			seen[pv] = true
+			if prm, ok := stripConv(pv).(*ssa.Parameter); ok && d < 6 {
+				if arg := p.soleArgument(prm); arg != nil {
+					walk(arg, d+1)
+					continue
+				}
+			}
+			out = append(out, pv)
+		}
+	}
+	walk(v, 0)
 	return out
 }
 
@@ -434,11 +485,37 @@ func rvRelOf(f Fact) (rvRel, bool) {
 type rvCase struct {
 	Vals  []ssa.Value
 	Facts []Fact
-	subst map[*ssa.Phi]ssa.Value
+	subst map[ssa.Value]ssa.Value
 	edge  map[*ssa.BasicBlock]int
 }
 
-func (p *Program) rvFactsContradict(fs []Fact, subst map[*ssa.Phi]ssa.Value) bool {
+// aliases returns v and the values it was replaced by during the expansion of this case (parameter →
+// argument → helper result → phi edge …): facts of the case may speak about any of them.
+func (c rvCase) aliases(v ssa.Value) []ssa.Value {
+	v = stripConv(v)
+	out := []ssa.Value{v}
+	for i := 0; i < 12; i++ {
+		s, has := c.subst[v]
+		if !has || stripConv(s) == v {
+			break
+		}
+		v = stripConv(s)
+		out = append(out, v)
+	}
+	return out
+}
+
+// knownNil: the facts of the case establish that v (or what it stands for in this case) is nil.
+func (p *Program) rvCaseKnownNil(c rvCase, v ssa.Value) bool {
+	for _, a := range c.aliases(v) {
+		if isNilConst(a) || p.nilnessFromFacts(c.Facts, a) == yesTri {
+			return true
+		}
+	}
+	return false
+}
+
+func (p *Program) rvFactsContradict(fs []Fact, subst map[ssa.Value]ssa.Value) bool {
 	seen := map[string]bool{}
 	for _, f := range fs {
 		k := p.key(f.Cond)
@@ -449,12 +526,8 @@ func (p *Program) rvFactsContradict(fs []Fact, subst map[*ssa.Phi]ssa.Value) boo
 		// nil tests on substituted phis
 		if y, trueMeansNonNil, ok := errNilTest(f.Cond); ok {
 			v := stripConv(y)
-			for i := 0; i < 6; i++ {
-				ph, isPhi := v.(*ssa.Phi)
-				if !isPhi {
-					break
-				}
-				s, has := subst[ph]
+			for i := 0; i < 10; i++ {
+				s, has := subst[v]
 				if !has {
 					break
 				}
@@ -476,30 +549,122 @@ func (p *Program) rvFactsContradict(fs []Fact, subst map[*ssa.Phi]ssa.Value) boo
 // incoming edges, each with the guard facts of the edges taken. Phis of one (non-loop) block are
 // resolved along the same edge. Cases whose facts are contradictory (a fact says the phi is
 // non-nil while the edge supplies nil) are dropped.
+//
+// The expansion sees through extracted helpers: a parameter of a helper with one call site is the
+// argument passed there, and results of a helper call are expanded jointly into the helper's
+// returns (with the facts of the return).
 func (p *Program) rvJointCases(site ssa.Instruction, vals []ssa.Value) []rvCase {
-	fn := site.Parent()
-	inLoop := map[*ssa.BasicBlock]bool{}
-	for _, l := range loopsOf(fn) {
-		for b := range l.Body {
-			inLoop[b] = true
+	inLoopOf := map[*ssa.Function]map[*ssa.BasicBlock]bool{}
+	inLoop := func(b *ssa.BasicBlock) bool {
+		fn := b.Parent()
+		m, ok := inLoopOf[fn]
+		if !ok {
+			m = map[*ssa.BasicBlock]bool{}
+			for _, l := range loopsOf(fn) {
+				for bb := range l.Body {
+					m[bb] = true
+				}
+			}
+			inLoopOf[fn] = m
 		}
+		return m[b]
 	}
-	start := rvCase{Vals: append([]ssa.Value{}, vals...), Facts: p.FactsAt(site.Block()), subst: map[*ssa.Phi]ssa.Value{}, edge: map[*ssa.BasicBlock]int{}}
+	clone := func(c rvCase) rvCase {
+		n := rvCase{Vals: append([]ssa.Value{}, c.Vals...), Facts: append([]Fact{}, c.Facts...), subst: map[ssa.Value]ssa.Value{}, edge: map[*ssa.BasicBlock]int{}}
+		for a, bb := range c.subst {
+			n.subst[a] = bb
+		}
+		for a, bb := range c.edge {
+			n.edge[a] = bb
+		}
+		return n
+	}
+	start := rvCase{Vals: append([]ssa.Value{}, vals...), Facts: p.FactsAtX(site.Block()), subst: map[ssa.Value]ssa.Value{}, edge: map[*ssa.BasicBlock]int{}}
 	var out []rvCase
 	var rec func(c rvCase, depth int)
 	rec = func(c rvCase, depth int) {
 		if p.rvFactsContradict(c.Facts, c.subst) {
 			return
 		}
-		var ph *ssa.Phi
-		idx := -1
-		if depth < 8 {
-			for i, v := range c.Vals {
-				if x, ok := stripConv(v).(*ssa.Phi); ok {
-					if _, done := c.subst[x]; !done {
-						ph, idx = x, i
+		if depth >= 14 {
+			out = append(out, c)
+			return
+		}
+		// parameters of extracted helpers denote the argument of the (single) call
+		for i, v := range c.Vals {
+			prm, ok := stripConv(v).(*ssa.Parameter)
+			if !ok {
+				continue
+			}
+			if _, done := c.subst[prm]; done {
+				continue
+			}
+			if arg := p.soleArgument(prm); arg != nil {
+				n := clone(c)
+				n.subst[prm] = arg
+				n.Vals[i] = arg
+				rec(n, depth+1)
+				return
+			}
+		}
+		// results of extracted helpers: one case per return of the helper, all results jointly
+		for _, v := range c.Vals {
+			call, _ := asCall(v)
+			if call == nil {
+				continue
+			}
+			if _, done := c.subst[call]; done {
+				continue
+			}
+			h := staticCallee(call.Common())
+			if h == nil || !p.inlinable(h) || h == site.Parent() {
+				continue
+			}
+			expanded := false
+			for _, b := range h.Blocks {
+				if len(b.Instrs) == 0 || (h.Recover != nil && b == h.Recover) {
+					continue
+				}
+				ret, isRet := b.Instrs[len(b.Instrs)-1].(*ssa.Return)
+				if !isRet {
+					continue
+				}
+				n := clone(c)
+				n.subst[call] = call
+				good := true
+				for j, w := range c.Vals {
+					cj, ij := asCall(w)
+					if cj != call {
+						continue
+					}
+					if ij < 0 {
+						ij = 0
+					}
+					if ij >= len(ret.Results) {
+						good = false
 						break
 					}
+					r := p.resolveResult(ret.Results[ij], ret)
+					n.subst[stripConv(w)] = r
+					n.Vals[j] = r
+				}
+				if !good {
+					continue
+				}
+				n.Facts = append(n.Facts, p.FactsAtX(b)...)
+				expanded = true
+				rec(n, depth+1)
+			}
+			if expanded {
+				return
+			}
+		}
+		var ph *ssa.Phi
+		for _, v := range c.Vals {
+			if x, ok := stripConv(v).(*ssa.Phi); ok {
+				if _, done := c.subst[x]; !done {
+					ph = x
+					break
 				}
 			}
 		}
@@ -507,10 +672,9 @@ func (p *Program) rvJointCases(site ssa.Instruction, vals []ssa.Value) []rvCase 
 			out = append(out, c)
 			return
 		}
-		_ = idx
 		b := ph.Block()
 		edges := make([]int, 0, len(ph.Edges))
-		if k, chosen := c.edge[b]; chosen && !inLoop[b] {
+		if k, chosen := c.edge[b]; chosen && !inLoop(b) {
 			edges = append(edges, k)
 		} else {
 			for k := range ph.Edges {
@@ -518,25 +682,17 @@ func (p *Program) rvJointCases(site ssa.Instruction, vals []ssa.Value) []rvCase 
 			}
 		}
 		for _, k := range edges {
-			n := rvCase{subst: map[*ssa.Phi]ssa.Value{}, edge: map[*ssa.BasicBlock]int{}}
-			for a, bb := range c.subst {
-				n.subst[a] = bb
-			}
-			for a, bb := range c.edge {
-				n.edge[a] = bb
-			}
+			n := clone(c)
 			n.edge[b] = k
-			for _, v := range c.Vals {
+			for j, v := range c.Vals {
 				if x, ok := stripConv(v).(*ssa.Phi); ok && x.Block() == b {
 					if _, done := c.subst[x]; !done {
 						n.subst[x] = x.Edges[k]
-						n.Vals = append(n.Vals, x.Edges[k])
-						continue
+						n.Vals[j] = x.Edges[k]
 					}
 				}
-				n.Vals = append(n.Vals, v)
 			}
-			n.Facts = append(append([]Fact{}, c.Facts...), p.FactsOnEdge(b.Preds[k], b)...)
+			n.Facts = append(n.Facts, p.FactsOnEdgeX(b.Preds[k], b)...)
 			rec(n, depth+1)
 		}
 	}
@@ -678,4 +834,170 @@ func rvShort(p *Program, v ssa.Value) string {
 		s = s[:100] + "…"
 	}
 	return s
+}
+
+// ---------------------------------------------------------------------------------------------
+// Call-chain sensitive views (for helpers with several call sites, where Program.key cannot unify a
+// parameter with "the" argument): an XCall found by callsInX(root) carries the chain of helper calls
+// that leads to it; the functions below interpret values / ordering / facts along that chain.
+
+// xcResolve maps a value of the function at the end of chain to the value it denotes in an outer
+// function: parameters of the helper are replaced by the arguments of the chain's call, outwards
+// as far as possible.
+func (p *Program) xcResolve(v ssa.Value, chain []Call) ssa.Value {
+	v = stripConv(v)
+	for i := len(chain) - 1; i >= 0; i-- {
+		prm, ok := v.(*ssa.Parameter)
+		if !ok {
+			break
+		}
+		callee := staticCallee(chain[i].Common)
+		if callee == nil || prm.Parent() != callee {
+			break
+		}
+		idx := -1
+		for k, q := range callee.Params {
+			if q == prm {
+				idx = k
+			}
+		}
+		if idx < 0 || idx >= len(chain[i].Common.Args) {
+			break
+		}
+		v = stripConv(chain[i].Common.Args[idx])
+	}
+	return v
+}
+
+// xcMustPrecede: on every path from the entry of the root function to the call xc (through the
+// helper calls of its chain) an instruction satisfying match is executed first.
+func (p *Program) xcMustPrecede(xc XCall, match func(ssa.Instruction) bool) bool {
+	m := p.liftMatch(match, 0)
+	if p.mustPrecede(xc.Instr, m) {
+		return true
+	}
+	for i := len(xc.Chain) - 1; i >= 0; i-- {
+		if p.mustPrecede(xc.Chain[i].Instr, m) {
+			return true
+		}
+	}
+	return false
+}
+
+// xcNilness: is v (a value of the root function) known nil / non-nil at the call xc, given the
+// facts at the call and at the helper calls of its chain?
+func (p *Program) xcNilness(xc XCall, v ssa.Value) tri {
+	level := func(in ssa.Instruction, chain []Call) tri {
+		for _, f := range p.FactsAt(in.Block()) {
+			y, trueMeansNonNil, ok := errNilTest(f.Cond)
+			if !ok {
+				continue
+			}
+			y = p.xcResolve(y, chain)
+			if y == stripConv(v) || p.sameValue(y, v) {
+				if f.Pol == trueMeansNonNil {
+					return noTri
+				}
+				return yesTri
+			}
+		}
+		return unknownTri
+	}
+	if t := level(xc.Instr, xc.Chain); t != unknownTri {
+		return t
+	}
+	for i := len(xc.Chain) - 1; i >= 0; i-- {
+		if t := level(xc.Chain[i].Instr, xc.Chain[:i]); t != unknownTri {
+			return t
+		}
+	}
+	return unknownTri
+}
+
+// ---------------------------------------------------------------------------------------------
+// Guards materialised in an extracted boolean helper (`if r.canReuse(a, b) { … }`).
+
+// xImplied returns fs plus the facts implied by those facts whose condition is the result of an
+// extracted helper (see Program.inlinable) with a single call site and a single boolean result:
+// if the call evaluated to Pol, the helper left through a return that can produce Pol, so the
+// facts common to all such returns hold (for a non-constant result additionally "result == Pol").
+// Parameters of the helper are unified with the arguments by Program.key, so the implied facts
+// can be matched against values of the caller. Same idea as the engine's phiImplied for booleans
+// kept in a variable.
+func (p *Program) xImplied(fs []Fact) []Fact {
+	out := append([]Fact{}, fs...)
+	have := map[string]bool{}
+	for _, f := range out {
+		have[f.key] = true
+	}
+	expanded := map[*ssa.Call]bool{}
+	for i := 0; i < len(out) && i < 400; i++ {
+		f := out[i]
+		call, idx := asCall(f.Cond)
+		if call == nil || idx != -1 || expanded[call] {
+			continue
+		}
+		if _, direct := stripConv(f.Cond).(*ssa.Call); !direct {
+			continue
+		}
+		h := staticCallee(call.Common())
+		if h == nil || !p.inlinable(h) || len(p.callersOf(h)) != 1 || h == call.Parent() {
+			continue
+		}
+		res := h.Signature.Results()
+		if res.Len() != 1 {
+			continue
+		}
+		if bt, isB := res.At(0).Type().Underlying().(*types.Basic); !isB || bt.Info()&types.IsBoolean == 0 {
+			continue
+		}
+		expanded[call] = true
+		var common map[string]Fact
+		for _, rc := range p.returnCases(h) {
+			if h.Recover != nil && rc.Ret.Block() == h.Recover {
+				continue
+			}
+			if len(rc.Results) != 1 || rc.Results[0] == nil {
+				common = map[string]Fact{}
+				break
+			}
+			cand := map[string]Fact{}
+			for _, g := range rc.Facts {
+				cand[g.key] = g
+			}
+			r := rc.Results[0]
+			if cb, isC := constBool(r); isC {
+				if cb != f.Pol {
+					continue // this return cannot have produced the value
+				}
+			} else {
+				g := p.mkFact(r, f.Pol)
+				if _, contradiction := cand[p.mkFact(r, !f.Pol).key]; contradiction {
+					continue
+				}
+				cand[g.key] = g
+			}
+			if common == nil {
+				common = cand
+			} else {
+				for k := range common {
+					if _, ok := cand[k]; !ok {
+						delete(common, k)
+					}
+				}
+			}
+		}
+		keys := make([]string, 0, len(common))
+		for k := range common {
+			keys = append(keys, k)
+		}
+		sort.Strings(keys)
+		for _, k := range keys {
+			if !have[k] {
+				have[k] = true
+				out = append(out, common[k])
+			}
+		}
+	}
+	return out
 }
